@@ -1448,6 +1448,16 @@ impl<'a, T, L: MutLayout + RemoveDim> DoubleEndedIterator for AxisIterMut<'a, T,
     }
 }
 
+/// Return the length of the last chunk when an axis of size `size` is divided
+/// into chunks of `chunk_size`. This is the chunk yielded from the back, which
+/// is shorter than the others if `size` is not a multiple of `chunk_size`.
+fn last_chunk_len(size: usize, chunk_size: usize) -> usize {
+    match size % chunk_size {
+        0 => chunk_size.min(size),
+        remainder => remainder,
+    }
+}
+
 /// Iterator over slices of a tensor along an axis. See
 /// [`TensorView::axis_chunks`](crate::TensorView::axis_chunks).
 pub struct AxisChunks<'a, T, L: MutLayout> {
@@ -1506,9 +1516,9 @@ impl<'a, T, L: MutLayout> ExactSizeIterator for AxisChunks<'a, T, L> {}
 impl<'a, T, L: MutLayout> DoubleEndedIterator for AxisChunks<'a, T, L> {
     fn next_back(&mut self) -> Option<Self::Item> {
         let remainder = self.remainder.take()?;
-        let chunk_len = self.chunk_size.min(remainder.size(self.axis));
-        let (prev_remainder, current) =
-            remainder.split_at(self.axis, remainder.size(self.axis) - chunk_len);
+        let remainder_size = remainder.size(self.axis);
+        let chunk_len = last_chunk_len(remainder_size, self.chunk_size);
+        let (prev_remainder, current) = remainder.split_at(self.axis, remainder_size - chunk_len);
         self.remainder = if prev_remainder.size(self.axis) > 0 {
             Some(prev_remainder)
         } else {
@@ -1581,7 +1591,7 @@ impl<'a, T, L: MutLayout> DoubleEndedIterator for AxisChunksMut<'a, T, L> {
     fn next_back(&mut self) -> Option<Self::Item> {
         let remainder = self.remainder.take()?;
         let remainder_size = remainder.size(self.axis);
-        let chunk_len = self.chunk_size.min(remainder_size);
+        let chunk_len = last_chunk_len(remainder_size, self.chunk_size);
         let (prev_remainder, current) =
             remainder.split_at_mut(self.axis, remainder_size - chunk_len);
         self.remainder = if prev_remainder.size(self.axis) > 0 {
